@@ -425,10 +425,13 @@ d_relay := {}; d_calc_allowed_ts := {}; d_distributed_2z := {}; d_burned_2z := {
 
     /// Look-alike of the revenue-distribution config: same bytes (right type tag and size), every role key replaced by
     /// `attacker`, placed at `to` under `owner`.
-    pub async fn forge_rd_config(&mut self, attacker: &K, to: &K, owner: &K) {
+    pub async fn forge_rd_config(&mut self, attacker: &K, to: &K, owner: &K) { self.forge_rd_config_ex(attacker, to, owner, false).await }
+    /// `unpause`: clear the pause bit in the forged copy (an attacker's look-alike claims the program is not paused)
+    pub async fn forge_rd_config_ex(&mut self, attacker: &K, to: &K, owner: &K, unpause: bool) {
         let p = self.keys.pk(&K::RdConfig);
         let Some(a) = self.ctx.banks_client.get_account(p).await.unwrap() else { return };
         let mut data = a.data.clone();
+        if unpause && data.len() > 8 { data[8] &= !1u8; }
         let ak = self.keys.pk(attacker).to_bytes();
         use core::mem::offset_of;
         for off in [offset_of!(rd::state::ProgramConfig, admin_key), offset_of!(rd::state::ProgramConfig, debt_accountant_key),
